@@ -2,7 +2,7 @@
    packets.  Statements only; proofs live in Proofs/Ogg.v. *)
 From Coq Require Import String List NArith.
 Import ListNotations.
-From Verif Require Import Common.Base Model.Ivf Model.Ogg Proofs.Ogg.
+From Verif Require Import Common.Base Model.Ivf Model.Ogg Proofs.Ogg Proofs.OggStream.
 Open Scope N_scope.
 
 (* lacing: a packet of n bytes gets n/255 entries of 255 and then n mod 255 *)
@@ -60,6 +60,110 @@ Theorem c33_headers_roundtrip :
   (forall t, tags_ok t -> parse_opus_tags (build_comment_header t) = Ok t).
 Proof. exact (conj head_roundtrip tags_roundtrip). Qed.
 Print Assumptions c33_headers_roundtrip.
+
+(* ------------------------------------------------------------------ *)
+(* Whole streams.  Vocabulary (Proofs/OggStream.v):
+   packets_pages serial 0 pkts pages : pages are, packet after packet, what
+     createPagesForSerial builds for the packets pkts = (header-type argument,
+     payload, granule argument), with sequence numbers continuing from 0;
+   hdr_id cfg / hdr_tags cfg : the OpusHead / OpusTags packets of a track;
+   data_pkts 0 ps : the accepted Opus packets ps = (payload, samples) with the
+     running sample count (mod 2^64) as granule argument;
+   stream_shape serial pkts g final : final is the pages of pkts followed by a
+     nil EOS page (granule g), or the pages of pkts with the EOS flag set on
+     the last one (same payload, lacing, granule, sequence number; new CRC). *)
+
+(* single-track writer (OggWriter), both outputs: what is in the output before
+   Close, and what Close returns - for every configuration and payload list *)
+Theorem c33_stream_single : forall fd rate cm serial t ops,
+  exists w0, new_single fd rate cm serial t = Ok w0 /\
+    let cfg := new_track rate cm serial t in
+    let pkts := [hdr_id cfg; hdr_tags cfg] ++ data_pkts 0 (accepted ops) in
+    exists pages,
+      packets_pages serial 0 pkts pages /\
+      sw_out (single_run w0 ops) = flat_map pg_data pages /\
+      (N.of_nat (length pages) < 4294967296 ->
+       exists final, close_single (single_run w0 ops) = Ok (flat_map pg_data final) /\
+                     stream_shape serial pkts (gsum 0 (accepted ops)) final).
+Proof. exact single_stream. Qed.
+Print Assumptions c33_stream_single.
+
+(* multi-track writer (Writer/Track), both outputs, any number of tracks with
+   distinct serials, any interleaving of WriteRTP calls: every track's pages in
+   the closed file have the stream shape for its own packets *)
+Theorem c33_stream_multi : forall rw cfgs ops,
+  NoDup (map tr_serial cfgs) -> Forall fresh cfgs ->
+  exists log : list (N * opage),
+    (exists w1, start_locked (multi_run (new_multi rw cfgs) ops) = Ok w1 /\ mw_out w1 = bytes_of log) /\
+    (N.of_nat (length log) < 4294967296 ->
+     exists final,
+       close_multi (multi_run (new_multi rw cfgs) ops) = Ok (bytes_of final) /\
+       forall i cfg ps,
+         nth_error cfgs i = Some cfg ->
+         nth_error (run_pss (map (fun _ => []) cfgs) ops) i = Some ps ->
+         stream_shape (tr_serial cfg) ([hdr_id cfg; hdr_tags cfg] ++ data_pkts 0 ps) (gsum 0 ps)
+                      (mine (tr_serial cfg) final)).
+Proof. exact multi_stream_close. Qed.
+Print Assumptions c33_stream_multi.
+
+(* c33_eos, in full: in all four variants (single / multi x file rewrite / nil
+   page) the last page of every stream carries end-of-stream and no earlier
+   page does.  (After fix 3ad4cd0; before it the single-track writer on a
+   non-seekable output wrote no EOS page.)  Bound in the statement: fewer than
+   2^32 pages (the 32-bit page counter; at 0 the nil page is skipped). *)
+Theorem c33_eos :
+  (forall fd rate cm serial t ops,
+     exists w0, new_single fd rate cm serial t = Ok w0 /\
+       exists pages, sw_out (single_run w0 ops) = flat_map pg_data pages /\
+         (N.of_nat (length pages) < 4294967296 ->
+          exists front L,
+            close_single (single_run w0 ops) = Ok (flat_map pg_data (front ++ [L])) /\
+            has_eos L = true /\ Forall (fun P => has_eos P = false) front)) /\
+  (forall rw cfgs ops,
+     NoDup (map tr_serial cfgs) -> Forall fresh cfgs ->
+     exists log : list (N * opage),
+       (exists w1, start_locked (multi_run (new_multi rw cfgs) ops) = Ok w1 /\ mw_out w1 = bytes_of log) /\
+       (N.of_nat (length log) < 4294967296 ->
+        exists final,
+          close_multi (multi_run (new_multi rw cfgs) ops) = Ok (bytes_of final) /\
+          forall cfg, In cfg cfgs ->
+            exists front L, mine (tr_serial cfg) final = front ++ [L] /\
+                            has_eos L = true /\ Forall (fun P => has_eos P = false) front)).
+Proof. exact (conj eos_single eos_multi). Qed.
+Print Assumptions c33_eos.
+
+(* c33_seq: in a finished stream the page sequence numbers are 0, 1, 2, ... (mod 2^32) *)
+Theorem c33_seq : forall serial pkts g final,
+  stream_shape serial pkts g final -> plain_pkts pkts ->
+  map pg_index final = map (fun j => u32 (N.of_nat j)) (seq 0 (length final)).
+Proof. exact shape_seq. Qed.
+Print Assumptions c33_seq.
+
+(* c33_granule: a page carries a granule position exactly when a packet ends on
+   it (all other pages: 2^64-1), and it is that packet's granule argument; the
+   nil EOS page repeats the last count.  For the data packets the argument is
+   the running sample count mod 2^64 (second part), for the two headers 0. *)
+Theorem c33_granule :
+  (forall serial pkts g final,
+     stream_shape serial pkts g final -> plain_pkts pkts ->
+     map pg_granule final = granules_of pkts \/ map pg_granule final = granules_of pkts ++ [g]) /\
+  (forall ps g,
+     map (fun pk : N * list N * N => snd pk) (data_pkts g ps)
+     = map (fun k => gsum g (firstn (S k) ps)) (seq 0 (length ps))).
+Proof. exact (conj shape_granule granules_data). Qed.
+Print Assumptions c33_granule.
+
+(* c33_bos_order, per stream: the first page carries BOS and (the ID header
+   being shorter than a page) exactly the OpusHead packet with granule 0; no
+   other page carries BOS.  The OpusTags packet follows (see c33_stream_single, c33_stream_multi). *)
+Theorem c33_bos_order : forall serial idp more g final,
+  stream_shape serial ((ht_bos, idp, 0) :: more) g final ->
+  Forall (fun pk : N * list N * N => fst (fst pk) = 0) more -> more <> [] ->
+  exists P0 rest, final = P0 :: rest /\ has_bos P0 = true /\
+                  Forall (fun P => has_bos P = false) rest /\
+                  (N.of_nat (length idp) < full_page -> pg_payload P0 = idp /\ pg_granule P0 = 0).
+Proof. exact shape_bos. Qed.
+Print Assumptions c33_bos_order.
 
 Example c33_example_tags :
   tags_ok (mkTags [112; 105; 111; 110] [([84], [120; 61; 121])]) /\
